@@ -196,7 +196,8 @@ def asm : Instr → Option Raw
   | .loadIndirect off size => assembleLoad regA size opAddrModeIndirect off
   | .loadMemShift off => assembleLoad regX 1 opAddrModeMemShift off
   | .loadExtension num =>
-    if num = extLen then assembleLoad regA 4 opAddrModePacketLen 0
+    if num < 0 ∨ num ≥ -extOffset then none
+    else if num = extLen then assembleLoad regA 4 opAddrModePacketLen 0
     else assembleLoad regA 4 opAddrModeAbsolute (u32OfInt (extOffset + num))
   | .storeScratch src n =>
     if n < 0 ∨ n > 15 then none
@@ -312,9 +313,10 @@ def disasmMisc (ri : Raw) : Instr :=
   else if ri.op = opClsMisc ||| opMiscTXA then .txa
   else .raw ri
 
-/-- `RawInstruction.Disassemble()`. The Go `default: panic("unreachable")` is
-dead code (3 mask bits, 8 cases), so the last class is the `else`. -/
-def disasm (ri : Raw) : Instr :=
+/-- `RawInstruction.disassemble()` (unexported): decode by opcode class, ignoring the bits and fields the
+decoded instruction does not use. The Go `default: panic("unreachable")` is dead code (3 mask bits, 8
+cases), so the last class is the `else`. -/
+def disasmCore (ri : Raw) : Instr :=
   let cls := ri.op &&& opMaskCls
   if cls = opClsLoadA ∨ cls = opClsLoadX then disasmLoad ri
   else if cls = opClsStoreA then disasmStore ri opClsStoreA regA
@@ -324,16 +326,24 @@ def disasm (ri : Raw) : Instr :=
   else if cls = opClsReturn then disasmRet ri
   else disasmMisc ri
 
+def isRaw : Instr → Bool
+  | .raw _ => true
+  | _ => false
+
+/-- `RawInstruction.Disassemble()`: the decoded instruction is kept only when assembling it reproduces
+`ri`; otherwise `ri` itself is returned. -/
+def disasm (ri : Raw) : Instr :=
+  let ins := disasmCore ri
+  if isRaw ins then ins
+  else if asm ins = some ri then ins
+  else .raw ri
+
 /-- `Disassemble(raw)`: (insts, allDecoded). -/
 def disasmProg (rs : List Raw) : List Instr × Bool :=
   let is := rs.map disasm
   (is, is.all (fun i => match i with | .raw _ => false | _ => true))
 
 /-! ### canonical forms (the region where the two maps are mutually inverse) -/
-
-def isRaw : Instr → Bool
-  | .raw _ => true
-  | _ => false
 
 /-- A conditional jump value is in the disassembler's normal form: a positive
 test (`==`, `>`, `>=`, `&`) has a non-zero true-skip, a negated test has a zero
@@ -345,7 +355,6 @@ def canonJump (cond st sf : Nat) : Bool :=
 /-- Typed instruction values that `Disassemble ∘ Assemble` returns unchanged. -/
 def canonTyped : Instr → Bool
   | .loadAbsolute off _ => off ≤ extThreshold
-  | .loadExtension num => 0 ≤ num && num < 4096
   | .aluOpConstant op _ => isALUBinary op
   | .aluOpX op => isALUBinary op
   | .jumpIf cond _ st sf => canonJump cond st sf
@@ -353,7 +362,7 @@ def canonTyped : Instr → Bool
   | .raw r => isRaw (disasm r)
   | _ => true
 
-/-- Raw instructions that `Assemble ∘ Disassemble` returns unchanged: the bits
+/-- Raw instructions that `Disassemble` decodes (the others are returned as they are): the bits
 and fields the decoded instruction does not use are zero, loads that are fixed
 to a register/width use that encoding, and a load-extension is spelled the way
 `LoadExtension.Assemble` spells it. -/
@@ -379,6 +388,6 @@ def canonRawFor (r : Raw) (i : Instr) : Bool :=
   | .txa => r.k == 0 && z
   | .tax => r.k == 0 && z
 
-def canonRaw (r : Raw) : Bool := canonRawFor r (disasm r)
+def canonRaw (r : Raw) : Bool := canonRawFor r (disasmCore r)
 
 end NetVerif.Model.Bpf
